@@ -87,7 +87,7 @@ main(int argc, char** argv)
     else if (!strcmp(tok[0], "canon") && n == 2) run_str("canon", f_canon, a, NULL, true);
     else if (!strcmp(tok[0], "curpath")) run_str("curpath", f_cur, NULL, NULL, false);
     else if (!strcmp(tok[0], "tmppath")) run_str("tmppath", f_tmp, NULL, NULL, false);
-    else if (!strcmp(tok[0], "mktemp") && n == 2) run_str("mktemp", f_mktemp, a, NULL, false);
+    else if (!strcmp(tok[0], "mktemp") && n == 2) run_str("mktemp", f_mktemp, a, NULL, !strstr(a, "XXXXXX") || strchr(a, '/'));   // a pattern mkdtemp rejects: NULL without a fault
     else if (!strcmp(tok[0], "mkdirs") && n == 2) {
       // create_directories: NO_MEM and nothing created, or the fault-free outcome
       int bad = 0, nomem = 0, done = 0;
